@@ -1,7 +1,8 @@
 ------------------------------- MODULE Names_Trace -------------------------------
 (* C04 contract on recorded cycles.  event: [backend, role, name (symbols),         *)
 (*  in_scope (the reference build file completed the same cycle), configure_exit,    *)
-(*  created, uptodate, noticed, cleaned]                                             *)
+(*  created, uptodate, noticed, cleaned, installed, uninstalled (TRUE for roles that  *)
+(*  install nothing)]                                                                *)
 EXTENDS Names, Json, IOUtils
 Traces == JsonDeserialize(IOEnv.TRACE_FILE)
 VARIABLES t, l
@@ -19,6 +20,9 @@ TraceNext ==
      /\ Need(scope => e.uptodate, "StepIsUpToDateAfterwards", e.role)
      /\ Need(scope => e.noticed, "ChangeOfNamedPrerequisiteIsNoticed", e.role)
      /\ Need(scope => e.cleaned, "CleanRemovesIt", e.role)
+     \* roles "install" / "insthdr": the name as an argument of the install and uninstall commands
+     /\ Need(scope => e.installed, "InstallPlacesTheFileUnderDestdir", e.role)
+     /\ Need(scope => e.uninstalled, "UninstallRemovesIt", e.role)
   /\ l' = l + 1 /\ UNCHANGED t
 TraceSpec == TraceInit /\ [][TraceNext]_tvars
 =============================================================================
